@@ -193,6 +193,69 @@ def gen_chars(exe):
     print("Chars: ranges extracted")
 
 
+def run_json(exe, *args):
+    out = subprocess.run([exe, *args], stdout=subprocess.PIPE, text=True, check=True).stdout
+    return json.loads(out)
+
+
+def gen_api(exe):
+    """entry-point dispatch and version facts (C27)"""
+    sig = re.search(r"const CBESignatureByte = byte\((0x[0-9a-fA-F]+)\)", open(os.path.join(REPO, "cbe", "common.go")).read())
+    sigv = int(sig.group(1), 16) if sig else -1
+
+    def label(l):
+        m = re.fullmatch(r"'(.)'", l)
+        if m:
+            return ord(m.group(1))
+        if l == "cbe.CBESignatureByte":
+            return sigv
+        return -1
+
+    def cases(fn):
+        rows = []
+        for c in run_json(exe, "switchcases", REPO, "ce", fn):
+            body = " ".join(c["body"] or [])
+            tgt = "cte" if "cte.New" in body else ("cbe" if "cbe.New" in body else "err")
+            for l in (c["labels"] or []):
+                rows.append((label(l), tgt))
+        return rows
+
+    def vmap(dirname, fn):
+        stmts = run_json(exe, "funcstmts", REPO, dirname, fn)
+        pairs = []
+        forwarded = False
+        for st in stmts:
+            m = re.fullmatch(r"if ver == (\d+) \{ ver = (\d+) \}", st)
+            if m:
+                pairs.append((int(m.group(1)), int(m.group(2))))
+            if re.search(r"OnVersion\(ver\)", st):
+                forwarded = True
+        return pairs, forwarded
+
+    libv = re.search(r"const ConciseEncodingVersion = (\d+)", open(os.path.join(REPO, "version", "version.go")).read())
+    lex = re.search(r"CTE_VERSION: \[(\d+)\];", open(os.path.join(REPO, "codegen", "cte", "CTELexer.g4")).read())
+    it = "OnVersion(version.ConciseEncodingVersion)" in open(os.path.join(REPO, "iterator", "iterator_root.go")).read()
+    cbe_map, cbe_fwd = vmap("cbe", "Decode")
+    cte_map, cte_fwd = vmap("cte", "ExitVersion")
+    fmtl = lambda rows: "[" + ", ".join(f'({a}, "{b}")' for a, b in rows) + "]"
+    fmtp = lambda rows: "[" + ", ".join(f"({a}, {b})" for a, b in rows) + "]"
+    lines = ["/- GENERATED by extract/extract.py from ce/decoder.go, ce/unmarshaler.go, cbe/decoder.go, cte/parser.go,",
+             "   version/version.go, codegen/cte/CTELexer.g4, iterator/iterator_root.go — do not edit -/",
+             "namespace CE.Gen", "",
+             f"def decoderCases : List (Nat × String) := {fmtl(cases('chooseDecoder'))}",
+             f"def unmarshalerCases : List (Nat × String) := {fmtl(cases('chooseUnmarshaler'))}",
+             f"def libVersion : Nat := {libv.group(1) if libv else 999}",
+             f"def cbeVersionMap : List (Nat × Nat) := {fmtp(cbe_map)}",
+             f"def cbeForwardsMapped : Bool := {'true' if cbe_fwd else 'false'}",
+             f"def cteVersionMap : List (Nat × Nat) := {fmtp(cte_map)}",
+             f"def cteForwardsMapped : Bool := {'true' if cte_fwd else 'false'}",
+             f"def cteLexerVersions : List Nat := [{', '.join(lex.group(1)) if lex else ''}]",
+             f"def marshalersEmitLibVersion : Bool := {'true' if it else 'false'}",
+             "", "end CE.Gen", ""]
+    open(os.path.join(GEN, "Api.lean"), "w").write("\n".join(lines))
+    print("Api: dispatch and version facts extracted")
+
+
 def snapshot():
     src = open(os.path.join(GEN, "Chars.lean")).read()
     src = src.replace("namespace CE.Gen", "namespace CE.Chars.Model").replace("end CE.Gen", "end CE.Chars.Model")
@@ -226,6 +289,7 @@ def main():
     exe = build_extractor()
     gen_rule_table(exe)
     gen_chars(exe)
+    gen_api(exe)
     gen_check()
     if "--snapshot" in sys.argv:
         snapshot()
